@@ -21,12 +21,19 @@ def _multiset(A):
     return sorted(map(tuple, np.round(A, 12).tolist()))
 
 
-def judge_sorter(x, y, opt):
-    """Output must be a permutation of the input points."""
+def judge_sorter(x, y, opt, kind="float"):
+    """Output must be a permutation of the input points. kind: how the caller passes the coordinates
+    (float arrays, integer arrays, python lists - x and y are documented as array_like)."""
     x = np.asarray(x, dtype=float)
     y = np.asarray(y, dtype=float)
     xi, yi = x.copy(), y.copy()
-    xx, yy = sort_points_to_form_continuous_line(x, y, search_for_optimal_start=opt)
+    if kind == "int":
+        xa, ya = x.astype(np.int64), y.astype(np.int64)
+    elif kind == "list":
+        xa, ya = x.tolist(), y.tolist()
+    else:
+        xa, ya = x, y
+    xx, yy = sort_points_to_form_continuous_line(xa, ya, search_for_optimal_start=opt)
     if not (np.array_equal(x, xi) and np.array_equal(y, yi)):
         return "input_mutated", {}
     xx, yy = np.asarray(xx), np.asarray(yy)
@@ -63,17 +70,19 @@ def run_case(case):
         for sub in itertools.combinations(pts, k):
             x = np.array([p[0] * sc[0] for p in sub])
             y = np.array([p[1] * sc[1] for p in sub])
-            n += 1
-            try:
-                r = judge_sorter(x, y, opt)
-            except Exception as e:
-                r = ("exception", {"type": type(e).__name__, "msg": str(e)[:200]})
-            if r:
-                bad(r[0], r[1], {"kind": "sorter_points", "x": x.tolist(), "y": y.tolist(), "opt": opt})
-            nontriv += 1
+            kinds = ("float", "int", "list") if (sc == [1.0, 1.0] or sc == [1.0, 3.0]) and k <= 6 else ("float",)
+            for kd in kinds:
+                n += 1
+                try:
+                    r = judge_sorter(x, y, opt, kd)
+                except Exception as e:
+                    r = ("exception", {"type": type(e).__name__, "msg": str(e)[:200], "input_kind": kd})
+                if r:
+                    bad(r[0], dict(r[1], input_kind=kd), {"kind": "sorter_points", "x": x.tolist(), "y": y.tolist(), "opt": opt, "input_kind": kd})
+                nontriv += 1
         return {"viol": viol, "n": n, "nontrivial": nontriv, "outcomes": [f"k{k}:{len(viol)}"]}
     if case["kind"] == "sorter_points":
-        r = judge_sorter(np.array(case["x"]), np.array(case["y"]), case["opt"])
+        r = judge_sorter(np.array(case["x"]), np.array(case["y"]), case["opt"], case.get("input_kind", "float"))
         if r:
             bad(r[0], r[1])
         return {"viol": viol, "n": 1, "nontrivial": 1}
@@ -145,7 +154,7 @@ def run_case(case):
 def main(ctx):
     ctx.rule = ("HDC part: the C02 grid family (models x alpha x limits x deltas incl. default grids and anisotropic cells); "
                 "sorter part: ALL subsets of k points (k=1..6 quick, 1..7 thorough) of a 4x4 lattice under axis scalings "
-                "(1,1),(1,3),(1,10),(0.0202,0.0484) and both search_for_optimal_start values, plus digital-disc boundaries "
+                "(1,1),(1,3),(1,10),(0.0202,0.0484) and both search_for_optimal_start values (integer scalings also as int64 arrays and python lists), plus digital-disc boundaries "
                 "of radius 3..20 under the same scalings. evaluations = contours + sorter calls; every case is non-trivial "
                 "except HDC cases whose region could not be established (C02 failure, ties at fm).")
     ctx.assumptions = ["region = cells with density >= fm on the grid read back from the object (C02 establishes that)",
